@@ -80,6 +80,10 @@ func Reach(id string)     {}
 func SetLoopBudget(n int) {}
 func SetAllocLimit(n int) {}
 
+// SetEnumBound bounds the counts/lengths the engine enumerates when untrusted
+// input determines a size: paths with larger values are cut and counted.
+func SetEnumBound(n int) {}
+
 // PermuteRanges makes the engine explore every iteration order of the maps
 // ranged over while it is on (natively the runtime randomises anyway).
 func PermuteRanges(on bool) {}
